@@ -305,6 +305,10 @@ func (c *Ctx) c04Loops(rule string, fns []*ssa.Function, floor int) {
 					default:
 						x, y = nil, nil
 					}
+					// `for { if !cond { break } ... }`: the loop continues on the false edge, so the test is the negation
+					if x != nil && len(h.Succs) == 2 && !l.Body[h.Succs[0]] && l.Body[h.Succs[1]] {
+						x, y = y, x
+					}
 					if x != nil {
 						if isInduction(x) && definedOutside(y, l) {
 							kind, why = "counting", "induction variable compared with a loop-invariant bound"
